@@ -217,6 +217,7 @@ class KafkaClient(object):
         self.partition_meta = {}  # TopicAndPartition -> PartitionMetadata
         self._group_to_coordinator = {}  # consumer_group -> BrokerMetadata
         self._coordinator_fetches = {}  # consumer_group -> Tuple[Deferred, List[Deferred]]
+        self._bootstrap_ds = set()  # Deferreds of bootstrap requests in progress
         self.topic_partitions = {}  # topic_id -> [0, 1, 2, ...]
         self.topic_errors = {}  # topic_id -> topic_error_code
         self.correlation_id = correlation_id
@@ -383,6 +384,9 @@ class KafkaClient(object):
         # Close down any clients we have
         brokerclients, self.clients = self.clients, None
         self._close_brokerclients(brokerclients.values())
+        # Bootstrap requests use ephemeral connections of their own
+        for d in list(self._bootstrap_ds):
+            d.cancel()
         # clean up other outstanding operations
         self.reset_all_metadata()
         return self.close_dlist or defer.succeed(None)
@@ -1144,8 +1148,24 @@ class KafkaClient(object):
         # boostrapping.
         returnValue((yield self._send_bootstrap_request(request)))
 
-    @inlineCallbacks
     def _send_bootstrap_request(self, request):
+        """
+        Make a request using an ephemeral broker connection, see
+        :meth:`_bootstrap()`. The request is tracked so that :meth:`close()`
+        can cancel it.
+        """
+        d = self._bootstrap(request)
+        self._bootstrap_ds.add(d)
+
+        def _done(result):
+            self._bootstrap_ds.discard(d)
+            return result
+
+        d.addBoth(_done)
+        return d
+
+    @inlineCallbacks
+    def _bootstrap(self, request):
         """Make a request using an ephemeral broker connection
 
         This routine is used to make broker-unaware requests to get the initial
@@ -1176,6 +1196,8 @@ class KafkaClient(object):
         hostports = list(self._bootstrap_hosts)
         random.shuffle(hostports)
         for host, port in hostports:
+            if self._closing:
+                raise t_CancelledError()
             ep = self._endpoint_factory(self.reactor, host, port)
             try:
                 protocol = yield ep.connect(_bootstrapFactory)
@@ -1199,6 +1221,8 @@ class KafkaClient(object):
             finally:
                 protocol.transport.loseConnection()
 
+        if self._closing:
+            raise t_CancelledError()
         raise KafkaUnavailableError("Failed to bootstrap from hosts {}".format(hostports))
 
     @inlineCallbacks
